@@ -87,3 +87,8 @@ def pager_scenarios():
                 if req.page_token != "":
                     failures.append({"case": label, "what": "caller's request mutated"})
     return failures
+
+
+def pager_scenarios_wrapped():
+    f = pager_scenarios()
+    return {"cases": len(HISTORIES) * 2, "failures": f}
